@@ -283,7 +283,7 @@ PROPS = {
         assumptions=['signatures idealised: SigBy k alg prot payload verifies exactly under key k / alg over that protected header and payload'],
     ),
     'C04': dict(
-        cone=EV_CONE + ['theories/DecodeProofs.v', 'theories/DecodePerm.v'], level='proof', oracle=_c04_oracle, signature=_c04_signature, kernel_maxlen=6000,
+        cone=EV_CONE + ['theories/DecodeProofs.v', 'theories/DecodePerm.v', 'theories/DecodeExt.v'], level='proof', oracle=_c04_oracle, signature=_c04_signature, kernel_maxlen=6000,
         nontrivial=lambda i, o: not o.startswith('ok') or ' e' in o, classify=lambda i, o: o.split(' ')[0],
         rule='tokens assembled by an independent CBOR writer: per claim key every value class (absent, null, undefined, booleans, simple values, floats of all widths, integers at every width boundary incl. 2^31, 2^32, 2^63, 2^64-1 and negative counterparts, non-preferred heads, byte strings of 14 lengths, texts incl. invalid UTF-8, arrays / maps / nested, tagged forms, indefinite lengths) with the rest valid; the other profile\'s keys mixed in; permuted key order; unknown extra keys (int, text, huge uint, byte-string / array / bool / float keys); duplicates; trailing and truncated bytes; pairs of deviations; non-map top-level items; non-trivial = rejected or some getter failing',
     ),
